@@ -1794,11 +1794,11 @@ impl Formatter<'_> {
 /// so that the contents of the bracket are laid out for it
 fn with_break_before_close(word: &Sp<Word>) -> Option<Sp<Word>> {
     fn add_break(word: &mut Word) -> bool {
-        let lines = match word {
-            Word::Func(func) => &mut func.lines,
-            Word::Array(arr) => &mut arr.lines,
+        let (lines, is_pack) = match word {
+            Word::Func(func) => (&mut func.lines, false),
+            Word::Array(arr) => (&mut arr.lines, false),
             Word::Pack(pack) => match pack.branches.last_mut() {
-                Some(branch) => &mut branch.value.lines,
+                Some(branch) => (&mut branch.value.lines, true),
                 None => return false,
             },
             Word::Modified(m) => {
@@ -1810,9 +1810,10 @@ fn with_break_before_close(word: &Sp<Word>) -> Option<Sp<Word>> {
             }
             _ => return false,
         };
-        // A line break after the opening bracket is laid out in its own way
+        // A line break after the opening bracket is laid out in its own way,
+        // but is dropped at the start of a branch of a pack
         let add = lines.last().is_some_and(|last| !last.is_empty_line())
-            && lines.first().is_some_and(|first| !first.is_empty_line());
+            && (is_pack || lines.first().is_some_and(|first| !first.is_empty_line()));
         if add {
             lines.push(Item::Words(Vec::new()));
         }
